@@ -145,7 +145,8 @@ def r1(ctx: Ctx) -> None:
     cs = canon_function(fs, m)
     s_ = ("self",)
     hard = ("a", s_, "is_hard")
-    area_def = mk_lt(k_num(0), ("c", ("g", "len"), (("a", s_, "area_regions"),), ()))
+    from framelint.canon import _truth
+    area_def = _truth(mk_lt(k_num(0), ("c", ("g", "len"), (("a", s_, "area_regions"),), ())))
     ta = top_asserts(cs)
     ctx.site(fs.where, "soft module without area refused")
     if mk_or([hard, area_def]) not in ta:
@@ -318,14 +319,15 @@ def r2(ctx: Ctx) -> None:
     fa = ctx.func(MODULE, "Module.area")
     ca = canon_function(fa, m)
     ctx.site(fa.where, "total area == sum of all region areas (memoised)")
-    total = ("c", ("g", "sum"), (("c", ("a", ("a", s_, "_area_regions"), "values"), (), ()),), ())
+    from .common import self_field
+    total = ("c", ("g", "sum"), (("c", ("a", self_field(fa, "_area_regions"), "values"), (), ()),), ())
     sets = [st for st in atoms_of(ca, lambda x: x[0] == "set" and len(x) == 3) if st[1] == ("a", s_, "_total_area")]
     if len(sets) != 1 or sets[0][2] != total:
         ctx.report(fa.where, "area-definition", "Module.area() is not the sum of all per-region areas", lineno=fa.node.lineno)
     ctx.site(fa.where, "per-region area: stored value, 0 for an absent region")
     from framelint.peval import value_expr
     from framelint.canon import mk_ite, K_NONE
-    regs = ("a", s_, "_area_regions")
+    regs = self_field(fa, "_area_regions")
     per_region = value_expr(tuple(st for st in ca if not (st[0] == "if" and st[1] == ("cmp", "is", ("p", 0), K_NONE))))
     if per_region != mk_ite(("cmp", "in", ("p", 0), regs), ("s", regs, ("p", 0)), k_num(0)):
         ctx.report(fa.where, "area-region-definition", "Module.area(region) does not return the stored area of that region", lineno=fa.node.lineno)
